@@ -629,15 +629,16 @@ def run(F, rep):
         raise AnalysisBroken('Analyser::analyseModel: call of AnalyserImpl::analyseModel not found (%d)' % len(inner))
     from engines import _decompose as _dc15
     atoms = []
+    from engines import value_of as _vo15, walk_x as _wx15
     for cnd, br, st in enclosing_conditions(pam, inner[0]):
         tmp = []
-        _dc15(cnd, br == 'then', tmp)
+        _dc15(_vo15(pam, cnd), br == 'then', tmp)
         atoms += [(c_, t_) for c_, t_ in tmp if not (c_.get('k') == 'Bin' and c_.get('op') in ('&&', '||'))]
     if not atoms:
         raise AnalysisBroken('Analyser::analyseModel: the internal analysis is no longer gated on the issue count')
     for c_, t_ in atoms:
         txt = render_x(pam, c_)
-        own = any(x.get('k') == 'Call' and x.get('fn') in ('issueCount', 'errorCount') and (not x.get('c') or x['c'][0].get('k') in ('This', 'NoObj') or render(x['c'][0]) in ('this', 'pFunc()')) for x in walk(c_))
+        own = any(x.get('k') == 'Call' and x.get('fn') in ('issueCount', 'errorCount') and (not x.get('c') or x['c'][0].get('k') in ('This', 'NoObj') or render(x['c'][0]) in ('this', 'pFunc()')) for x in _wx15(pam, c_))
         rep.check(own, 'C15.G1', 'analyseModel|gate %s' % txt[:50], pam.where(c_), 'the internal analysis also depends on `%s`, which no issue explains: when it fails the AnalyserModel of the previous call stays in place' % txt[:60], 'own issue counter')
     for r in pam.walk():
         if r.get('k') == 'Return' and pam.enclosing_lambda(r) is None and r.get('l', 0) < inner[0].get('l', 0):
